@@ -3,13 +3,13 @@ CONSTANTS
   Order <- O3
   Methods <- MBoth
   ChecksSet <- BBoth
-  Policies <- PAll
+  Policies <- PThree
   Variant = "intended"
   MaxPert = 2
   Rounds = 26
-  OwnConds <- OCAll
-  Presets <- BBoth
-  GenSels <- BBoth
+  OwnConds <- OCNone
+  Presets <- BNo
+  GenSels <- BNo
   ScaleRevs <- BBoth
 INVARIANTS C07_OneMove C07_HookOrder C07_Gate C07_OldStay C07_NonRevNow C08_Linear C07_StuckWaits
 PROPERTIES C01_QuietWhenDone
